@@ -256,8 +256,10 @@ QUICK = chk.tier != "thorough"
 chk.assumptions = [
     "reference = go1.24.0 (thorough: go1.26.0 as second reference, disagreeing graphs discarded); per-package order and logged values are compared, "
     "the interleaving of independent packages is not (llgo: import order, go: import-path order - both satisfy the property)",
-    "build mode exe only: `llgo build -buildmode c-archive` dies in the C header writer (unsupported type clite.Int) before any initialisation code "
-    "could be observed; the `every build mode` part of the quantifier is not reached",
+    "build mode exe only. On this tree `llgo build -buildmode c-archive|c-shared` of a println-only module succeeds but yields nothing executable: "
+    "the .a is an archive of per-package archives (linkers do not search nested archives), the .so has no text symbols (package archives are not "
+    "whole-archived), and neither mode generates an entry that initialises packages (the header only declares every <pkg>.init for the C host); "
+    "programs that pull in more of std die in the header writer (unsupported type clite.Int). The `every build mode` part of the quantifier is not reached",
     "-O0 only (LLVM 14 optimisation pipelines crash on opaque pointers in this sandbox); linux/amd64 only",
     "initialisation of overlaid std packages is observed through their state (tables, sentinels, handles) read by the importers' initialisers, and "
     "through identity of values allocated by their init (a re-initialisation in between changes them); a repeated but idempotent std init is invisible",
